@@ -36,12 +36,14 @@ def build(ctx):
     hs = []
     G, D, E = 2, 1, ctx.q(1, 2)
     ctx.assumptions = ["recording visitor returning true at the k-th callback, k symbolic (k=0: never); geometry: numInGroup <= %d, data length <= %d, wire blockLength in [compiled, compiled+%d]; all bytes symbolic" % (G, D, E)]
-    plan = [("vs_msg_le.xml", "17", "checked")] if ctx.quick else [(x, s, "checked") for s in ("11", "14", "17", "20") for x in ("vs_msg_le.xml", "vs_msg_be.xml")]
+    plan = [("vs_msg_le.xml", "17", "checked"), ("vs_msg2_le.xml", "17", "checked")] if ctx.quick else [(x, s, "checked") for s in ("11", "14", "17", "20") for x in ("vs_msg_le.xml", "vs_msg_be.xml")] + \
+        [("vs_msg2_le.xml", "17", "checked"), ("vs_msg2_be.xml", "20", "checked")]
     plan = hgen.plan_env(plan)
     for (xml, std, mode) in plan:
         sch, inc = hgen.gen_headers(ctx, xml)
         for msg in sch.messages:
             if ctx.quick and msg.name in c02.QUICK_SKIP: continue
+            if c02.skip2(ctx, sch, msg, ("pad", "arrmid", "lastcomp", "lastset", "cfirst", "empty", "cmx", "d3", "gng")): continue   # g3 (three groups, one nested): thorough tier
             g = msggen.MG(sch, msg, 1 if (ctx.quick and any(gr.groups for gr in msg.groups)) else G)   # nested message: G=1 in the quick tier (G=2 needs minutes)
             tags, lines, capn = msggen.visit_model(g)
             u = ctx.lower("c19_%s_%s" % (sch.ns, msg.name), g.cpp_prelude() + msggen.cpp_visit(g, tags), std=std, mode=mode, incs=[inc])
